@@ -554,6 +554,40 @@ def run(world, rep, tier, only=None):
                bool(looks) and (ef2.dominated_by(z, looks) or verdict),
                "`%s` lies behind a use of clear_ok_array inside the none/clear branch (dominating look, or the test of a verdict set from one)" % z.text()[:30])
 
+    # ------------------------------------------------------------------ C11.q a quota leaf leaves the free list when its last slot is taken
+    # find_free_dqentry() (the writer behind tune2fs -O quota / -Q) puts a new record into a leaf from the list of
+    # leaves with free slots and takes the leaf off that list when the record fills it.  "Fills it" is: entries
+    # before + 1 == capacity; decided one record late, the next record is sent to a full leaf and lands in the block
+    # behind it.  The test that leads to remove_free_dqentry() holds at that equality.
+    qp = world.program("tune2fs", plain=True)
+    ffd = qp.fn("find_free_dqentry", "lib/support/quotaio_tree.c")
+    rm_ = calls_to(ffd, "remove_free_dqentry")
+    rep.floor("C11.q removal from the free list in find_free_dqentry", len(rm_), 1)
+    n_q = 0
+    for b in sorted(ffd.blocks):
+        lit = ffd.literal(b)
+        a0 = T.strip(lit[0]) if lit else None
+        if not (isinstance(a0, dict) and a0.get("k") == "b" and a0.get("o") in ("<", "<=", ">", ">=", "==", "!=")):
+            continue
+        l_, r_, o_ = a0["l"], a0["r"], a0["o"]
+        if any(cc.get("fn") == "qtree_dqstr_in_blk" for cc in T.calls(l_)):
+            l_, r_, o_ = r_, l_, {"<": ">", "<=": ">=", ">": "<", ">=": "<=", "==": "==", "!=": "!="}[o_]
+        if not any(cc.get("fn") == "qtree_dqstr_in_blk" for cc in T.calls(r_)):
+            continue
+        lf = linear_form(l_, ffd, depth=2)
+        ent = [k for k in (lf or {}) if k != 1 and "dqdh_entries" in str(k)]
+        if lf is None or len(ent) != 1 or lf[ent[0]] != 1:
+            continue
+        n_q += 1
+        c_ = lf.get(1, 0) - 1            # (entries + c) - capacity  at  entries + 1 == capacity
+        holds = {">=": c_ >= 0, ">": c_ > 0, "==": c_ == 0, "<=": c_ <= 0, "<": c_ < 0, "!=": c_ != 0}[o_]
+        end_ = ffd.block_end(b)
+        taken = [m for (m, si) in ffd.succ(end_) if ((si == 0) == lit[1]) == holds]
+        r = ffd.reach(taken, avoid=[end_])
+        rep.ob("C11.q", site(ffd, "a leaf that the new record fills leaves the free list#%d" % n_q), any(x in r or x in taken for x in rm_),
+               "`%s`: with entries + 1 equal to the capacity the test is %s and remove_free_dqentry() is reached" % (T.pp(a0)[:60], holds))
+    rep.floor("C11.q capacity tests in find_free_dqentry", n_q, 1)
+
 
 def _hurd_lit(a):
     return "EXT2_OS_HURD" in T.macros(a)
